@@ -51,8 +51,10 @@ def make_ops(rng, cfg, profile, tier):
         r = rng.random()
         if r < 0.3:
             ops.append({'op': 'EVAL_C', 'a': [rng.randrange(nf), rng.randrange(2), rng.randrange(4), rng.random() < 0.3]})
-        elif r < 0.4:
+        elif r < 0.38:
             ops.append({'op': 'EVAL_D', 'a': [rng.randrange(nf), rng.randrange(2), rng.randrange(4)]})
+        elif r < 0.4:
+            ops.append({'op': 'CREATE_FUNCTION', 'a': [rng.randrange(nf), rng.randrange(2), rng.randrange(4), rng.randrange(4)]})
         elif r < 0.5:
             ops.append({'op': 'EVAL_PY', 'a': [rng.randrange(1 << 16)]})
         elif r < 0.65:
@@ -254,6 +256,36 @@ class Session:
                         self.cmp(f'formula {fi}', got, want)
                     self._after_valid()
                 ctx.log(kind, fi, dbi, k)
+        elif kind == 'CREATE_FUNCTION':
+            # the formula wrapped as a function of the vector of its free parameters (create_function); the formula is then
+            # numbered again on the same table (prepare) and the function called at another point: it evaluates at the
+            # point it is given
+            fi, dbi, k1, k2 = a
+            fi %= len(self.formulas)
+            b1, b2 = self.betas_at(k1), self.betas_at(k2 + 1)
+            w1, w2 = self.valid_at(fi, b1, dbi), self.valid_at(fi, b2, dbi)
+            # a fresh copy of the formula (own parameter objects): its numbering is changed on purpose
+            bld = ref.Builder(dict(self.builder.beta_specs), pool=self.pool, share_elementary=True)
+            e = bld.build(self.formulas[fi])
+            from biogeme.expressions import TypeOfElementaryExpression as _T
+            free_names = sorted(e.set_of_elementary_expression(_T.FREE_BETA))
+            if w1 is None or w2 is None or not free_names:
+                ctx.log(kind, 'skip-domain')
+            else:
+                fct = self.lib('create_function', lambda: e.create_function(database=self.dbs[dbi], number_of_draws=10,
+                                                                             gradient=False, hessian=False, bhhh=False))
+                if fct is not None:
+                    o1 = self.lib('function created from the formula, first call', lambda: fct([b1[n_] for n_ in free_names]))
+                    if o1 is not None:
+                        self.cmp(f'function created from formula {fi}', [float(getattr(o1, 'function', o1))], [sum(w1)])
+                    self.lib('prepare', lambda: e.prepare(self.dbs[dbi], 10))
+                    o2 = self.lib('function created from the formula, called after the formula was numbered again',
+                                  lambda: fct([b2[n_] for n_ in free_names]))
+                    if o2 is not None:
+                        self.cmp(f'function created from formula {fi}, after the formula was numbered again',
+                                 [float(getattr(o2, 'function', o2))], [sum(w2)])
+                    ctx.probe('function created from a formula, called before and after a renumbering')
+                ctx.log(kind, fi, dbi)
         elif kind == 'EVAL_D':
             fi, dbi, k = a
             fi %= len(self.formulas)
